@@ -11,7 +11,7 @@ TEXT = {
  "C11": "Coq theorems (PARTIAL towards the full restore theorem): the future half (C11_future: the observational equivalence holds_C11 is preserved by every further input, no panics), Parser::dump round trip for every reachable parser state, Pen::dump round trip, Buffer::dump replay reproduces any view exactly, dump() total; the composition of the 14-step Terminal::dump script is in progress (Proofs/DumpScript.v). The restore itself is evaluated on the implementation (holds_C11 + public observables after dump/restore and continuations, classifiers for the known findings kf1/kf2/kf3)",
  "C09": "Coq theorems: for every width/height >= 1 and every list of printable lines, text() of a fresh terminal fed the CR LF-joined text equals the lines (trailing whitespace trimmed, trailing empties aside); width independence; TextUnwrapper agreement; holds_C09 is a theorem of the model and is evaluated on the implementation",
  "C16": "Coq theorems: holds_C16 for every control function from every state satisfying the invariant (parked primary untouched while on the alternate screen, blank alternate screen in the current pen on every entry incl. mode lists, 1049 saves first, exact restore when the size is unchanged); resized excursion: C10's resize_preserves on the parked buffer",
- "C12": "Coq theorems: with unlimited scrollback any two chunkings of a string end in states with equal parser, screen, cursor, modes and lines() (primary and alternate screen, RIS allowed); for every limit: no control function reads dirty flags, trim flags or rows above the view (execute commutes with cutting scrollback prefixes). Known finding KF-C12-1 (per-character feed() on the alternate screen) classified separately",
+ "C12": "Coq theorems: for EVERY scrollback limit any two chunkings of the same character stream (and per-character feed()) from any state satisfying the invariant end with equal parser and the same visible screen, cursor, modes, margins, tabs, saved contexts (C12_sessions, C12_perchar); with unlimited scrollback also the same lines() (holds_C12). Underlying: no control function reads dirty flags, trim flags or rows above the view. Known finding KF-C12-1 (lines() after per-character feed() on the alternate screen) classified separately",
  "C14": "Coq theorem: for every size, limit L and RIS-free session of feed_str calls from the initial state ending on the primary screen, drained lines ++ final lines() = lines() of the unlimited run (cell for cell, in order); nothing lost at a report (C14_flush)",
  "C15": "Coq theorems: every control function marks every row whose cells it changes (ghost invariant DInv preserved by execute / resize), hence every report returned by feed_str / resize is sound (holds_C15)",
  "C20": "Coq theorem over the regenerated parser tables: every concatenation of OSC/DCS/SOS/PM/APC strings (7/8-bit introducers, ST / ESC \\\\ / BEL), unimplemented CSI / ESC sequences and unassigned C0/C1 controls (grammar inert_spec, outside the known-finding class kf_c20) emits no function from any parser in ground state and ends in ground state; KF-C20-1 proved real (witness CSI > ! p); exhaustive sweep validates the tables",
